@@ -124,6 +124,7 @@ func (vc *VC) applyContract(con *Contract, key string, n int, args []SV, st *Sta
 		vc.havocMatching(st, m)
 	}
 	vc.havocLogGhosts(con, assigns, st) // logghost.go (w-c09)
+	vc.recordCall(key, args, st)        // x-c17: re-record after the havoc (a callee without `assigns` wiped the lastcall ghosts)
 	res, parts := resultSV(vc, "call."+shortKey(key), resT)
 	tup := resT.(*types.Tuple)
 	for i, p := range parts {
